@@ -13,8 +13,12 @@ RULE = (
     "every consumed dataset produced, present on the target host or a transfer to it commanded) and on the worker side (the real "
     "entrypoint/runner/Memory start a task only when every input can be read from the host's store; a dying worker loop is a "
     "violation); at the end every task dispatched and executed exactly once. non-trivial = a task command reached its worker before "
-    "one of its inputs had arrived on that host (deferral path), or a host migrated between components; distinct = fingerprint of "
-    "(case, event trace)"
+    "one of its inputs had arrived on that host (deferral path), or a host migrated between components. Second family "
+    "(worker-only): one real worker loop fed an arbitrary generated interleaving of task sequences (1-3 tasks each), publication "
+    "notices for required and unrelated datasets (before / between / after the command, repeated, echoes of its own outputs) and "
+    "purges, under the three preconditions the real system keeps; oracle: every sequence runs exactly once, never before its last "
+    "required notice and immediately once it arrived, outputs equal the reference, nothing is read that was not announced; "
+    "non-trivial there = a deferred sequence plus a repeated/unrelated notice or a purge. distinct = fingerprint of (case, event trace)"
 )
 ASSUMPTIONS = [
     "a worker counts as busy from dispatch until its real execute_sequence returns (the controller cannot know earlier)",
@@ -38,9 +42,39 @@ def _nt(c):
     return c["deferred"] > 0 or c["migrations"] > 0
 
 
+def _wo_body(stats):
+    def body(case, holder):
+        from .. import workeronly
+        from ..common import Violation
+
+        nt, tags, fp, breaches = workeronly.run_case(case, holder)
+        if breaches:
+            raise Violation(breaches[0][1], "worker-only:" + breaches[0][0])
+        return nt, tags, fp
+
+    return body
+
+
 def shard(seed, cases, tier):
-    return simcheck.shard(FAMILY, _nt, seed, cases, tier)
+    from .. import common, workeronly
+
+    st_ = simcheck.shard(FAMILY, _nt, seed, cases, tier)
+    if not st_.violations:
+        common.hyp_run(workeronly.cases(), _wo_body(st_), st_, seed + 7, max(50, cases // 2))
+    return st_
 
 
 def replay(case):
+    inner = case.get("case", case) if isinstance(case, dict) else case
+    if isinstance(inner, dict) and "seqs" in inner:
+        from .. import workeronly
+        from ..common import Violation
+
+        c = dict(inner)
+        if "log" in case:
+            c["log"] = case["log"]
+        _nt2, _tags, _fp, breaches = workeronly.run_case(c, {})
+        if breaches:
+            raise Violation(breaches[0][1], "worker-only:" + breaches[0][0])
+        return
     simcheck.replay_case(FAMILY, case)
